@@ -106,13 +106,7 @@ pub fn run_real(al: &Alphabet, hist: &[Arr], w: u32, var: Variant) -> Result<Vec
         };
         let mut done = false;
         for (i, a) in hist.iter().enumerate() {
-            let t = var.base_s as f64 + a.ms as f64 / 1e3;
-            let mut metadata = vec![SensorMetadata { system_timestamp: t, gnss_timestamp: None, nanoseconds: Some(i as u64), rssi: None, serial: a.rx as u64 + 1, name: None }];
-            if var.multi && a.rx == 1 {
-                // a reception that already carries two metadata entries (e.g. an upstream aggregator)
-                metadata.push(SensorMetadata { system_timestamp: t, gnss_timestamp: None, nanoseconds: Some(i as u64 + SECOND), rssi: None, serial: 9, name: None });
-            }
-            let m = TimedMessage { timestamp: t, frame: al.frames[a.frame as usize].clone(), message: None, metadata, decode_time: None };
+            let m = make_msg(al, i, a, var);
             tx_in.try_send(m).map_err(|_| ()).expect("input channel has room");
             for _ in 0..2 {
                 if !done && fut.as_mut().poll(&mut cx).is_ready() {
@@ -202,7 +196,9 @@ pub fn run_real_slow(al: &Alphabet, hist: &[Arr], w: u32, var: Variant, from: us
 
 fn make_msg(al: &Alphabet, i: usize, a: &Arr, var: Variant) -> TimedMessage {
     let t = var.base_s as f64 + a.ms as f64 / 1e3;
-    let mut metadata = vec![SensorMetadata { system_timestamp: t, gnss_timestamp: None, nanoseconds: Some(i as u64), rssi: None, serial: a.rx as u64 + 1, name: None }];
+    // in the multi variant receiver 1 is a GNSS-disciplined receiver: its receptions also carry its own clock, 17.5 s off
+    let gnss = if var.multi && a.rx == 0 { Some(t + 17.5) } else { None };
+    let mut metadata = vec![SensorMetadata { system_timestamp: t, gnss_timestamp: gnss, nanoseconds: Some(i as u64), rssi: None, serial: a.rx as u64 + 1, name: None }];
     if var.multi && a.rx == 1 {
         metadata.push(SensorMetadata { system_timestamp: t, gnss_timestamp: None, nanoseconds: Some(i as u64 + SECOND), rssi: None, serial: 9, name: None });
     }
